@@ -41,6 +41,15 @@ type mon struct {
 	dist     map[string]bool // distinct observations of this history ("set\x00key"), merged by flush
 	ever     map[string]bool
 
+	// abandoned offers (enabled when offerLapse > 0): an OFFER / Advertise its client never follows up (no ACK, NAK,
+	// RELEASE, DECLINE, no further offer) has lapsed offerLapse after it was made; once a cleanup tick has passed
+	// since, the value must be obtainable again (judged with the other "available again" obligations)
+	offerLapse   time.Duration
+	compOffer    string
+	onOfferLapse func(c string) // coverage hook
+	declNamed    map[string]bool // values named in any DECLINE (no obligation is created on them)
+	lastOut      map[string]time.Time // value -> instant it was last offered / acknowledged to anybody
+
 	// cycling episodes: the decline / release / hostile-request events (message:class) seen since the free
 	// list was last cycled completely. Coverage bookkeeping only - no clause reads it.
 	events map[string]bool
@@ -368,6 +377,17 @@ func (m *mon) onOffer(c, kind, v, comp string, now time.Time) {
 		m.set(m.offered, c, kind, bind{v, now.Add(m.offerTTL)})
 	}
 	m.discharge(v)
+	m.handedOut(v, now)
+}
+
+// handedOut remembers when v was last offered / acknowledged (only read by the abandoned-offer sweep).
+func (m *mon) handedOut(v string, now time.Time) {
+	if m.offerLapse > 0 {
+		if m.lastOut == nil {
+			m.lastOut = map[string]time.Time{}
+		}
+		m.lastOut[v] = now
+	}
 }
 
 // discharge: v was handed out, so a pending "available again" obligation on it is met.
@@ -407,6 +427,7 @@ func (m *mon) onAck(c, kind, v, comp string, life time.Duration, now time.Time) 
 	m.set(m.bound, c, kind, bind{v, now.Add(life)})
 	m.del(m.offered, c, kind)
 	m.discharge(v)
+	m.handedOut(v, now)
 }
 
 // markBound / everBound remember that c was bound at some time (coverage classification only).
@@ -451,6 +472,10 @@ func (m *mon) onRelease(c, kind string, own bool, now time.Time, kept bool) {
 // again; otherwise nothing is required and the server may or may not keep c's binding: kept says
 // which it did (its lease table still carries c's binding), see onRelease.
 func (m *mon) onDecline(c, kind, v string, now time.Time, kept bool) {
+	if m.declNamed == nil {
+		m.declNamed = map[string]bool{}
+	}
+	m.declNamed[v] = true
 	hv, held := m.heldUnexpired(c, kind, now)
 	ov, off := m.offeredTo(c, kind, now)
 	if (held && hv == v) || (off && ov == v) {
@@ -481,6 +506,41 @@ func (m *mon) sweep(cut, now time.Time) {
 	sort.Slice(gone, func(i, j int) bool { return gone[i].c+gone[i].k < gone[j].c+gone[j].k })
 	for _, g := range gone {
 		m.lapse(g.c, g.k, now)
+	}
+	if m.offerLapse <= 0 {
+		return
+	}
+	// offers made more than offerLapse before the cut and never followed up: the reservation is over
+	gone = gone[:0]
+	for c, ks := range m.offered {
+		for k, b := range ks {
+			if b.exp.Add(m.offerLapse - m.offerTTL).Before(cut) { // b.exp = instant of the offer + offerTTL
+				gone = append(gone, ck{c, k})
+			}
+		}
+	}
+	sort.Slice(gone, func(i, j int) bool { return gone[i].c+gone[i].k < gone[j].c+gone[j].k })
+	for _, g := range gone {
+		b, _ := m.get(m.offered, g.c, g.k)
+		m.del(m.offered, g.c, g.k)
+		if m.classify(b.v) != "" || m.declNamed[b.v] || m.holder(b.v, "", now) != "" || m.offeree(b.v, "", now) != "" {
+			continue // somebody is entitled to it now, or it was named in a DECLINE (the server may keep it out of use)
+		}
+		if m.lastOut[b.v].After(b.exp.Add(-m.offerTTL)) {
+			// the value was handed out to somebody else after this offer was made: the reservation had
+			// demonstrably ended, and whatever reservation followed is that other client's
+			continue
+		}
+		if _, dec := m.declined[b.v]; dec {
+			continue
+		}
+		if _, pending := m.oblig[b.v]; !pending {
+			m.oblig[b.v] = "offer-lapsed"
+		}
+		m.count("offers_abandoned_until_lapse", 1)
+		if m.onOfferLapse != nil {
+			m.onOfferLapse(g.c)
+		}
 	}
 }
 
@@ -517,6 +577,10 @@ func (m *mon) finish(compReleased, compExpired string) {
 		if why == "expired" {
 			comp = compExpired
 		}
+		if why == "offer-lapsed" {
+			m.viol(m.compOffer, "abandoned-offer-available-again", "offer-lapsed-not-obtainable", v, "%s was offered to a client that never requested it, more than one lease time and a cleanup tick have passed, and no fresh client could obtain it when the pool was drained", v)
+			continue
+		}
 		m.viol(comp, "released-available-again", why+"-not-obtainable", v, "%s was %s and no fresh client could obtain it when the pool was drained", v, why)
 	}
 	m.endStep()
@@ -531,10 +595,14 @@ func (m *mon) key(now time.Time) string {
 			for k, b := range ks {
 				d := b.exp.Sub(now)
 				if d <= 0 {
-					if skipElapsed { // an elapsed offer behaves like no offer
+					if skipElapsed && m.offerLapse <= 0 { // an elapsed offer behaves like no offer (unless its lapse is still to be judged)
 						continue
 					}
 					d = -1 // elapsed, not yet swept
+				}
+				if skipElapsed && m.offerLapse > m.offerTTL { // offers: also the time left until the offer lapses
+					ls = append(ls, fmt.Sprintf("%s/%s=%s@%d/%d", c, k, b.v, d, b.exp.Add(m.offerLapse-m.offerTTL).Sub(now)))
+					continue
 				}
 				ls = append(ls, fmt.Sprintf("%s/%s=%s@%d", c, k, b.v, d))
 			}
